@@ -132,6 +132,17 @@ func (e *Encoder) writeObject(data interface{}) (int, error) {
 		return e.writeBytes(encodeDate(date))
 	}
 
+	// a struct that cannot be written is refused before it takes a reference number: nothing of it reaches the
+	// stream, so the numbering of what follows on the stream must not move either
+	if st := UnpackPtrType(vv.Type()); st.Kind() == reflect.Struct {
+		for i := 0; i < st.NumField(); i++ {
+			if st.Field(i).PkgPath != "" {
+				// reflect cannot hand out the value of an unexported field (nor could a decoder set it)
+				return 0, newCodecError("writeObject", "unsupported unexported field %s of %v", st.Field(i).Name, st)
+			}
+		}
+	}
+
 	// check ref
 	if n, ok := e.checkEncodeRefMap(vv); ok {
 		return e.writeRef(n)
@@ -140,12 +151,6 @@ func (e *Encoder) writeObject(data interface{}) (int, error) {
 	vv = UnpackPtrValue(vv)
 
 	typ := vv.Type()
-	for i := 0; i < typ.NumField(); i++ {
-		if typ.Field(i).PkgPath != "" {
-			// reflect cannot hand out the value of an unexported field (nor could a decoder set it)
-			return 0, newCodecError("writeObject", "unsupported unexported field %s of %v", typ.Field(i).Name, typ)
-		}
-	}
 	// TypeName is the key ExtractTypeNameMap uses: the type's name, or its full description for a struct type
 	// without a name (never the empty string, which every unnamed map type would share)
 	clsName, ok := e.nameMap[TypeName(typ)]
